@@ -118,10 +118,17 @@ def aggregate_check(ctx):
     core.setup_repo_path()
     from pero_ocr import error_summary as es
     ss = seqs('ab', 2)
-    sums = [es.ErrorsSummary.from_lists(a, b) for a in ss for b in ss]
     n = 0
     fails = []
     samples = []
+    try:
+        sums = [es.ErrorsSummary.from_lists(a, b) for a in ss for b in ss]
+    except Exception as e:          # the line summaries cannot even be built: reported as a contract failure, not a checker crash
+        ctx.add_bounded('aggregate', 'all subsets of size <= 3 of the 49 summaries of pairs over {a,b}^<=2', 1, 0, False, [],
+                        [Failure(sig('rt', 'ErrorsSummary.from_lists', 'no-exception'), 'ErrorsSummary.from_lists raised %r' % (e,),
+                                 function='ErrorsSummary.from_lists', input={'pairs': 'all pairs over {a,b}^<=2'}, observed=repr(e), clause='no-exception')],
+                        rule='subsets of line summaries', clause='aggregating summaries is plain addition')
+        return
     for k in (0, 1, 2, 3):
         for combo in itertools.islice(itertools.combinations(range(len(sums)), k), 400):
             part = [sums[i] for i in combo]
